@@ -88,6 +88,9 @@ type TaskSpec struct {
 	Mask     int      `json:"mask,omitempty"`
 	Combined bool     `json:"combined,omitempty"`
 	MapOrder MapOrder `json:"order"`
+	// Repeat makes the caller issue the same call Repeat more times, one after the other
+	// (a caller that starts a call after another caller finished one).
+	Repeat int `json:"repeat,omitempty"`
 }
 
 // Switch hands the baton to Task at the first yield point whose global step is >= Step.
